@@ -17,7 +17,9 @@ one-character strings, the pair set (thorough: the triple set), non-BMP boundary
 sequences of <= 3 tokens over TOKENS, inside quotes: unicode escapes that produce backslashes, quotes and line
 terminators, octal look-alikes, doubled u) are compiled; a `main` prints the code units.  javac's reading must equal
 the model's, and javac must reject exactly the literals the model calls ill-formed (those are compiled one per file).
-A disagreement there is a HARNESS error (the model is wrong), never a property violation.
+A disagreement there is a HARNESS error (the model is wrong), never a property violation.  Judging uses the
+specification dialect of the model; the two places where javac 17 is observed to deviate from the specification are
+modelled / excluded for the binding only and reported in the evidence notes.
 
 Keys (input side): single:<class of the code point>, pair:<classA>+<classB>, triple:<A>+<B>+<C>.  A pair/triple that
 contains a character whose one-character string is already mis-written is not reported again (counted as
@@ -141,15 +143,13 @@ def judge(fn, s):
         return None, "raised %s: %s" % (type(e).__name__, e)
     if not isinstance(lit, str):
         return None, "returned %r" % (lit,)
-    both = javalex.read_both(lit)
-    for dialect in ("jls", "javac"):        # the specification's reading and javac 17's must both give the constant
-        got = both[dialect]
-        who = "" if both["jls"] is both["javac"] or both["jls"] == both["javac"] else " (as read by %s)" % dialect
-        if isinstance(got, javalex.JavaLexError):
-            return lit, "literal %s is not a well-formed Java string literal%s: %s" % (ascii(lit), who, got)
-        if got != want:
-            return lit, "literal %s denotes code units [%s]%s, the constant is [%s]" % (
-                ascii(lit), " ".join("%04x" % x for x in got), who, " ".join("%04x" % x for x in want))
+    try:
+        got = javalex.read_string_literal(lit, "jls")       # the statement's "Java's lexical rules" = the specification
+    except javalex.JavaLexError as e:
+        return lit, "literal %s is not a well-formed Java string literal: %s" % (ascii(lit), e)
+    if got != want:
+        return lit, "literal %s denotes code units [%s], the constant is [%s]" % (
+            ascii(lit), " ".join("%04x" % x for x in got), " ".join("%04x" % x for x in want))
     return lit, None
 
 
@@ -291,9 +291,21 @@ def model_read(lit, dialect="javac"):
         return None
 
 
+# javac 17.0.x defect (observed, not in the specification): after a Unicode escape that yields a HIGH surrogate which is
+# not followed by a low surrogate, the reader has peeked one unit ahead and does not restore its backslash-parity flag,
+# so a following backslash run is mis-paired and a later \uXXXX may be read as the illegal string escape \u
+# ("\ud800\\\u0000" is rejected with 'illegal escape character' although it is a well-formed literal).  Literals of that
+# shape are kept out of the binding (a superset of the trigger is excluded) and counted.
+_JAVAC_HI_SURR_DEFECT = re.compile(r"\\u+[dD][89abAB][0-9a-fA-F]{2}\\(?!u+[dD][c-fC-F][0-9a-fA-F]{2}).*\\u", re.S)
+
+
 def bind(acc, literals, what):
     """literals: distinct texts.  Model-valid ones are read by javac, model-invalid ones must be rejected by javac."""
     literals = sorted(set(literals))
+    skip = [l for l in literals if _JAVAC_HI_SURR_DEFECT.search(l)]
+    if skip:
+        acc.count("javac_binding_excluded_known_javac_surrogate_defect", len(skip))
+        literals = [l for l in literals if not _JAVAC_HI_SURR_DEFECT.search(l)]
     valid = [l for l in literals if model_read(l) is not None]
     invalid = [l for l in literals if model_read(l) is None]
     if any("\n" in l or "\r" in l for l in valid):
@@ -462,6 +474,7 @@ def finalize(ctx, acc):
     for fn, s, must_fire in ((right, "\U0001f600\n\"\\", False), (lambda s: '"%s"' % s, '"', True),
                              (lambda s: '"\\u000a"', "\n", True), (lambda s: '"\\u1f600"', "\U0001f600", True),
                              (lambda s: '"\\\\u0041"', "\\A", True), (lambda s: '"\\u005c\\\\uu0041"', "\\A", True),
+                             (lambda s: '"\\ud800\\\\\\u0000"', "\ud800\\\0", False),
                              (lambda s: '"\\u0022"', '"', True), (lambda s: '"\\u005c\\u005c"', "\\", False)):
         if bool(judge(fn, s)[1]) != must_fire:
             acc.harness_error("oracle self-test on %s: fired=%r" % (ascii(s), not must_fire))
@@ -477,4 +490,10 @@ def finalize(ctx, acc):
              "subsumed_by_single, not reported under a pair key")
     acc.note("javac_agreements = number of distinct literal texts on which javac+java and ref/javalex.py agreed "
              "(read or rejected)")
+    acc.note("judged by the specification's reading (ref/javalex.py dialect 'jls'). javac 17 deviates from it in two observed "
+             "ways that are NOT judged: (1) a backslash produced by \\u005c pairs with a following raw backslash (modelled as "
+             "dialect 'javac', counted in literals_where_javac_deviates_from_jls); (2) after an escaped unpaired high "
+             "surrogate followed by a backslash javac mis-pairs backslashes and rejects e.g. \"\\ud800\\\\\\u0000\", which "
+             "HEAD's writer emits for the string U+D800 U+005C U+0000 (such literals are excluded from the binding and "
+             "counted in javac_binding_excluded_known_javac_surrogate_defect)")
     acc.note("DvMethod.get_source on a generated DEX not driven (no DEX generator); Writer.visit_constant on a bare Writer is")
